@@ -766,7 +766,8 @@ def install_contracts(E, skip_target=None):
     E.contracts = {}
     E.virtual = {}
     for target, con in CT.REGISTRY.items():
-        if con.opts.get('canary'):
+        if con.opts.get('canary') or '#' in target:
+            # 'pkg.mod:func#name': a second (native-only) contract on a function; never used at call sites
             continue
         try:
             fn, owner = CT.resolve(target)
